@@ -85,7 +85,7 @@ def run(ctx):
             f = t.fsms("")
             if ob3.need(len(f) == 1, "mode FSM not found"):
                 st = sorted({l.state for l in t.fsm_leaves(f[0]) if l.kind == "assign" and key(l.target) == "dram_bypass" and not is0(l.value)})
-                other = [l for l in t.leaves if l.kind == "assign" and key(l.target) == "dram_bypass" and not is0(l.value)]
+                other = [l for l in t.leaves if l.fsm is None and l.kind == "assign" and key(l.target) == "dram_bypass" and not is0(l.value)]
                 if other:
                     st.append("<outside the FSM>")
                 ob3.instance("dram_bypass asserted in", st)
